@@ -589,3 +589,33 @@ Proof.
   split; [vm_compute; reflexivity|]. split; [vm_compute; reflexivity|].
   split; [eexists; eexists; vm_compute; reflexivity|vm_compute; reflexivity].
 Qed.
+
+(* =========================================================================================== *)
+(** * get_modularity as REGENERATED FROM sknetwork/clustering/metrics.py
+
+    [src_modularity_fit / _div / _mod] (Gen/NpModularity.v) are the values of the variables [fit], [div] and [mod] of
+    get_modularity, translated on every run by harness/translators/npvec.py into the array language of Model/NpVec.v
+    (inputs: the square adjacency and the stacked label vector that the function's prologue produces, [weights],
+    [resolution]); [rvdenote] is that language's NumPy / SciPy semantics over R.  For EVERY matrix (index function), every
+    non-negative label vector, both weightings and every resolution the denotation is the documented modularity, and the
+    fit and diversity terms add up to it. *)
+From SKN Require Import Model.NpExpr Model.NpVec Gen.NpModularity Proofs.NpVecProofs Proofs.NpModularityProofs.
+From Coq Require Import Reals Lra.
+Local Open Scope R_scope.
+
+Theorem source_modularity_def (n : nat) (A : nat -> nat -> R) (l : list Z) (deg : bool) (gamma : R) :
+  labels_ok n l ->
+  rvdenote (env_mod n A l deg gamma) src_modularity_fit = Some (WS (fit_def n A l)) /\
+  rvdenote (env_mod n A l deg gamma) src_modularity_div = Some (WS (div_def n A l deg)) /\
+  rvdenote (env_mod n A l deg gamma) src_modularity_mod = Some (WS (fit_def n A l - gamma * div_def n A l deg)).
+Proof. exact (NpModularityProofs.source_modularity_def n A l deg gamma). Qed.
+Print Assumptions source_modularity_def.
+
+(** the normalising constants of the in- and out-probabilities coincide (total weight) *)
+Theorem source_modularity_totals (n : nat) (A : nat -> nat -> R) :
+  rsum n (fun j' => rsum n (fun i => A i j')) = total n A.
+Proof. exact (NpModularityProofs.total_in_eq_total_out n A). Qed.
+Print Assumptions source_modularity_totals.
+
+Example c06_nonvacuous_source : labels_ok 3 (0 :: 2 :: 0 :: nil)%Z.
+Proof. split; [reflexivity|]. intros [|[|[|i]]] Hi; try lia; cbn; lia. Qed.
